@@ -70,7 +70,6 @@ func VerifH_grow() {
 	verifGrowW = w
 	verifGrowLocks = 0
 	verifGrowBudget = verifCase("interference")
-	verifKnown("F-max", verifGrowBudget >= 1)
 	ctx := &verifCtx{}
 	verifResetLocks()
 	verifGrowArmed = true
